@@ -177,6 +177,7 @@ type Engine struct {
 	events  []pendingEvt
 	budget  int
 	failed  bool
+	initRefused bool
 	start   time.Time
 	curOp   int
 }
@@ -541,8 +542,14 @@ func (e *Engine) exec(i int, op *Op) {
 		}
 	case "req":
 		method, params := e.buildReq(op)
-		e.sendRaw(method, params, true, i)
+		a := e.sendRaw(method, params, true, i)
 		settle()
+		if method == "initialize" && a != nil && a.Done && a.Err != "" {
+			// the server refused to initialise (e.g. unreadable luahelper.json): a conformant client
+			// stops here
+			e.initRefused = true
+			e.probe("initialize-refused")
+		}
 	case "notify":
 		var v interface{}
 		if len(op.Params) > 0 {
@@ -768,17 +775,23 @@ func runInBubble(t *testing.T, sc *Scenario, cfg simrt.Config, hooks Hooks, res 
 				}
 				p["workspaceFolders"] = fs
 			}
-			e.sendRaw("initialize", p, true, -1)
+			ia := e.sendRaw("initialize", p, true, -1)
 			e.Settle()
-			e.sendRaw("initialized", map[string]interface{}{}, false, -1)
-			e.Settle()
-			if sc.FirstCfg {
+			if ia != nil && ia.Done && ia.Err != "" {
+				e.initRefused = true
+				e.probe("initialize-refused")
+			}
+			if !e.initRefused {
+				e.sendRaw("initialized", map[string]interface{}{}, false, -1)
+				e.Settle()
+			}
+			if sc.FirstCfg && !e.initRefused {
 				e.sendRaw("workspace/didChangeConfiguration", map[string]interface{}{"settings": map[string]interface{}{}}, false, -1)
 				e.Settle()
 			}
 		}
 		for i := range sc.Ops {
-			if e.failed {
+			if e.failed || e.initRefused {
 				break
 			}
 			e.curOp = i
